@@ -216,6 +216,9 @@ def msg_id_part(nthreads, ncalls):
         if rec['fields'].get(0x0100) == 0x0020:
             with lock:
                 seen.setdefault(threading.current_thread().name, []).append(rec['fields'].get(0x0110))
+            if rec['fields'].get(0x0110) % 4 == 2:
+                # this query the peer does not answer: it aborts the association (the caller handles that and goes on)
+                return [fd.incoming_pdu({'t': 7, 'r1': 0, 'r2': 0, 'r3': 0, 'source': 2, 'reason': 0})]
             f = {0x0002: rec['fields'].get(0x0002), 0x0100: 0x8020, 0x0120: rec['fields'].get(0x0110), 0x0900: 0}
             pc = rec['pc_ids'][0]
             return [lambda: fd.incoming_msg(dul, f, None, pc)]
@@ -231,9 +234,13 @@ def msg_id_part(nthreads, ncalls):
 
     def worker(i):
         try:
+            from pynetdicom2 import exceptions
             for _ in range(ncalls):
-                list(pynetdicom2.c_find({'aet': 'SRV', 'address': 'peer.example', 'port': 104}, 'CLI%d' % i,
-                                        svc.simple_ds(QueryRetrieveLevel='PATIENT', PatientID='*'), FIND))
+                try:
+                    list(pynetdicom2.c_find({'aet': 'SRV', 'address': 'peer.example', 'port': 104}, 'CLI%d' % i,
+                                            svc.simple_ds(QueryRetrieveLevel='PATIENT', PatientID='*'), FIND))
+                except exceptions.AssociationAbortedError:
+                    pass
         except Exception as exc:     # noqa
             errors.append(exc)
     with fd.installed(Fac()):
